@@ -122,7 +122,14 @@ RULE = ("lengths {0,1,2} + {k*32768+d | k in 0..3, d in -2..2} + random <= 100 k
         "made afterwards must be unaffected.  Also: hashutil's module constants (ALGORITHMS, DEFAULT_ALGORITHMS, HASH_BLOCK_SIZE) are "
         "compared before/after every case; scripts clear the names list right after constructing the hasher; the routes call "
         "from_symlink directly, Content.from_file on /dev/null and on a directory, to_model() of visible and absent contents, and "
-        "the four *_to_* conversion helpers on every digest; thorough adds two inputs of 0.6 and 1 MiB through the MultiHash entry points.  RETURNED-CONTAINER channel: "
+        "the four *_to_* conversion helpers on every digest; thorough adds two inputs of 0.6 and 1 MiB through the MultiHash entry points.  SOURCE-DERIVED values: about 8 % of "
+        "the data lengths (routes, names, shape, stream kinds), a chunking style and some declared lengths are integer constants "
+        "occurring in swh/model/*.py of the tree under test (each with -1/+1; up to 100 kB where the model is evaluated, up to 2 MiB "
+        "for the MultiHash routes, those above 150 kB being checked by the property oracle only, the model not run), and about 8 % "
+        "of the contents start and/or end with a byte literal harvested from that source (plus b'blob ', NUL, a BOM, ...), and "
+        "every bytes literal of that source is placed once at the start and once at the end of a small content run through all "
+        "entry points: a "
+        "threshold or a prefix special case introduced by a change is in the source, hence drawn.  RETURNED-CONTAINER channel: "
         "the dicts returned "
         "by digest()/hexdigest()/bytehexdigest() (and by model.Content.hashes()) are edited by the caller (clear, pop, overwrite "
         "every value, add keys, rotate values; a read-only container is tolerated) - in the chunked route after each of four "
@@ -193,7 +200,8 @@ def data_of(spec):
     elif spec["t"] == "rep":       # head + pattern repeated + tail, exactly n bytes
         head, pat, tail = (bytes.fromhex(spec[k]) for k in ("h", "p", "e"))
         body = max(0, spec["n"] - len(head) - len(tail))
-        d = (head + (pat * (body // len(pat) + 1))[:body] + tail)[:spec["n"]]
+        d = (head + (pat * (body // len(pat) + 1))[:body])[:max(0, spec["n"] - len(tail))] + tail     # the tail survives truncation
+        d = d[len(d) - spec["n"]:] if len(d) > spec["n"] else d
     else:
         d = random.Random(spec["s"]).randbytes(spec["n"])
     if len(_cache) > 8:
@@ -1288,6 +1296,8 @@ ALL_ROUTES = ["fd", "ff", "fp", "ch", "hg", "cg", "mc", "ms", "db", "df", "cf", 
 
 
 def requests(c):
+    if c.get("nomodel"):
+        return []                 # too large for the extracted model: implementation + property oracle only
     if c["kind"] == "script":
         ops = []
         for op in c["ops"]:
@@ -1400,6 +1410,8 @@ def parse_run(line):
 
 
 def model(c, resp):
+    if c.get("nomodel"):
+        return {"nomodel": True}
     if c["kind"] == "script":
         line = resp[0]
         if not line.startswith("ok"):
@@ -1495,6 +1507,8 @@ IMPL_TO_MODEL = {"ffr": "ff", "sp": "cf", "fpl": "fp", "dls": "dl", "do2": "do",
 
 
 def compare(c, ires, mres):
+    if mres.get("nomodel"):
+        return None
     if "model_failure" in mres:
         return "model failed: " + mres["model_failure"][:200]
     if c["kind"] == "script":
@@ -1858,7 +1872,60 @@ def oracle_script(c, ires):
 
 
 # ------------------------------------------------------------------ generators
+def src_ints(cap):
+    """integer constants of the source under test (each with -1/+1) usable as a length: 0 <= v <= cap; never raises"""
+    try:
+        from .gitobj_common import source_ints
+        return [v for v in source_ints() if 0 <= v <= cap] or [0]
+    except Exception:
+        return [0, 1, BLOCK - 1, BLOCK, BLOCK + 1]
+
+
+def src_tokens():
+    try:
+        from .gitobj_common import source_tokens
+        return list(source_tokens("bytes")) + [b"blob ", b"blob 0\0", b"\0", b"\xef\xbb\xbf", b"tree ", b"commit ", b"\x1f\x8b", b"#!"]
+    except Exception:
+        return [b"blob ", b"\0", b"\xef\xbb\xbf"]
+
+
+_BYTE_LITERALS = []
+
+
+def src_byte_literals():
+    """the bytes literals (1..20 long) of swh/model/*.py of the tree under test: what a content special case would be keyed on"""
+    if _BYTE_LITERALS:
+        return _BYTE_LITERALS
+    found = set()
+    try:
+        import ast
+        import glob
+        from . import core
+        for f in sorted(glob.glob(os.path.join(core.REPO, "swh", "model", "*.py"))):
+            try:
+                tree = ast.parse(open(f, encoding="utf-8").read())
+            except Exception:
+                continue
+            for nd in ast.walk(tree):
+                if isinstance(nd, ast.Constant) and isinstance(nd.value, bytes) and 1 <= len(nd.value) <= 20:
+                    found.add(nd.value)
+    except Exception:
+        pass
+    _BYTE_LITERALS.extend(sorted(found) or [b"blob"])
+    return _BYTE_LITERALS
+
+
+def pick_len(rng, n, cap=100000, p=0.08):
+    """n, or (about 8 % of the time) a length that is an integer constant of the source under test"""
+    return rng.choice(src_ints(cap)) if rng.random() < p else n
+
+
 def gen_data(rng, n, style):
+    if n >= 2 and rng.random() < 0.08:     # a byte literal of the source under test at the start / end / both ends of the content
+        tok = rng.choice(src_byte_literals()) if rng.random() < 0.6 else rng.choice(src_tokens())
+        where = rng.choice(["start", "start", "end", "both"])
+        return {"t": "rep", "n": n, "h": tok.hex() if where != "end" else "", "p": rng.randbytes(61).hex(),
+                "e": tok.hex() if where != "start" else ""}
     if style == "zero":
         return {"t": "fill", "n": n, "b": 0}
     if style == "ff":
@@ -1873,6 +1940,14 @@ def gen_data(rng, n, style):
 
 
 def gen_cuts(rng, n, style):
+    if style == "source-ints":
+        cuts, pos = [], 0
+        sizes = src_ints(max(1, n))
+        while pos < n and len(cuts) < 400:
+            c = rng.choice(sizes)
+            cuts.append(c)
+            pos += c
+        return cuts
     if style == "whole":
         return [n] if n else []
     if style == "none":
@@ -1921,7 +1996,8 @@ def gen(rng, tier):
     quick = tier != "thorough"
     cases = []
     edge = sorted({n for n in [0, 1, 2] + [k * BLOCK + d for k in range(4) for d in range(-2, 3)] if n >= 0})
-    cut_styles = ["random", "empties", "blocks", "around-blocks", "bytes", "whole", "none", "random"]
+    cut_styles = ["random", "empties", "blocks", "around-blocks", "bytes", "whole", "none", "random", "random", "random", "random",
+                  "source-ints"]
     data_styles = ["rand", "zero", "ff", "text"]
     lengths = []
     for i, n in enumerate(edge):
@@ -1932,6 +2008,7 @@ def gen(rng, tier):
     for k in range(n_random):
         r = rng.random()
         n = rng.randrange(0, 2000) if r < 0.5 else rng.randrange(2000, 100001)
+        n = pick_len(rng, n)
         if not quick and r > 0.9:
             n = rng.choice(edge)
         lengths.append((n, rng.choice(data_styles + ["rand", "text"]), rng.choice(cut_styles)))
@@ -1984,12 +2061,22 @@ def gen(rng, tier):
             if names and rng.random() < 0.2:
                 names.append(rng.choice(names))          # a duplicate
             n = rng.choice([0, 1, 3, 100, 1000, BLOCK - 1, BLOCK, BLOCK + 1, 2 * BLOCK + 1]) if rep == 0 else rng.randrange(0, 5000)
+            n = pick_len(rng, n, cap=2 << 20)
             c = {"kind": "names", "data": gen_data(rng, n, rng.choice(data_styles)), "names": names,
-                 "length": "real", "cuts": gen_cuts(rng, n, rng.choice(["random", "empties", "around-blocks"])),
+                 "length": "real", "cuts": gen_cuts(rng, n, rng.choice(["random", "empties", "around-blocks", "source-ints"])),
                  "sched": gen_sched(rng, n)}
             if n <= 2000 and names and len(names) <= 3:
                 c["exec"] = ["ch"]
+            if n > 150000:
+                c["nomodel"] = True
             cases.append(c)
+    # lengths in (150 kB, 2 MiB] that are constants of the source (a threshold such as 1 << 20 or 10**6): MultiHash routes,
+    # implementation + property oracle only
+    large = [v for v in src_ints(2 << 20) if v > 150000]
+    for v in (rng.sample(large, min(len(large), 2 if quick else 12)) if large else []):
+        cases.append({"kind": "names", "data": gen_data(rng, v, rng.choice(["rand", "text"])), "names": ["length"] + sorted(DEFAULT_ALGORITHMS),
+                      "length": "real", "cuts": gen_cuts(rng, v, rng.choice(["blocks", "source-ints", "random"])), "sched": gen_sched(rng, v),
+                      "nomodel": True})
     if not quick:                                       # two large inputs through the MultiHash entry points
         for n, ds, cs in (((1 << 20) + 1, "rand", "blocks"), (600000, "text", "around-blocks")):
             cases.append({"kind": "names", "data": gen_data(rng, n, ds), "names": ["length"] + sorted(DEFAULT_ALGORITHMS),
@@ -1999,12 +2086,12 @@ def gen(rng, tier):
         kind = k % 4
         if kind == 0:
             names.insert(rng.randrange(len(names) + 1), rng.choice(BAD_NAMES))
-        n = rng.choice([0, 1, 5, 300, BLOCK + 3])
+        n = pick_len(rng, rng.choice([0, 1, 5, 300, BLOCK + 3]), cap=60000, p=0.15)
         length = "real"
         if kind == 1:
             length = None
         elif kind == 2:
-            length = rng.choice([0, n + 1, max(0, n - 1), 10 ** 12, n * 10 + 7])
+            length = rng.choice([0, n + 1, max(0, n - 1), 10 ** 12, n * 10 + 7, rng.choice(src_ints(2 << 20))])
         elif kind == 3:
             names = [a for a in names if not a.endswith("_git")]
             length = None
@@ -2079,6 +2166,18 @@ def gen(rng, tier):
     cases += gen_result_edits(rng, quick, universe)
     cases += gen_rehash(rng, quick)
     cases += gen_shapes(rng, quick, universe)
+    # every bytes literal of the source under test once at the start and once at the end of a small content, all entry points
+    sweep = [(tok, where) for tok in src_byte_literals() for where in ("start", "end")]
+    if quick and len(sweep) > 90:
+        sweep = rng.sample(sweep, 90)
+    for tok, where in sweep:
+        n = len(tok) + rng.choice([0, 1, 7, 100])
+        c = {"kind": "routes", "data": {"t": "rep", "n": n, "h": tok.hex() if where == "start" else "", "p": rng.randbytes(61).hex(),
+                                        "e": tok.hex() if where == "end" else ""},
+             "cuts": gen_cuts(rng, n, rng.choice(["random", "whole", "bytes"])), "sched": gen_sched(rng, n)}
+        if link_ok(data_of(c["data"])) and rng.random() < 0.5:
+            c["symlink"] = True
+        cases.append(c)
     return cases
 
 
@@ -2093,7 +2192,7 @@ def gen_shapes(rng, quick, universe):
     cases = []
     sizes = [0, 1, 1, 2, 3, 100, 2047, 2048, 5000, BLOCK, BLOCK + 1, 2 * BLOCK + 17]
     for k in range(64 if quick else 1600):
-        n = rng.choice(sizes[:9] if quick and rng.random() < 0.85 else sizes)
+        n = pick_len(rng, rng.choice(sizes[:9] if quick and rng.random() < 0.85 else sizes), cap=70000)
         c = {"kind": "shape", "data": gen_data(rng, n, rng.choice(["rand", "rand", "text", "zero"])),
              "cuts": gen_cuts(rng, n, rng.choice(["random", "empties", "whole", "none"]))}
         if k % 4 != 0:                                  # k % 4 == 0: hash_names left at its default everywhere
@@ -2249,6 +2348,7 @@ def gen_streams(rng, quick, universe):
     for k in range((2 if quick else 40) * len(combos)):
         cls, how = combos[k % len(combos)]
         n = rng.choice(big) if rng.random() < (0.3 if quick else 0.5) else rng.choice(small + [rng.randrange(0, 9000)])
+        n = pick_len(rng, n)
         if cls == "mmap" and n == 0:
             n = 1                                           # an empty file cannot be mapped
         style = "text" if how == "readline" and rng.random() < 0.8 else rng.choice(["rand", "rand", "zero", "text"])
